@@ -337,6 +337,9 @@ func (s *vC04Stub) Name() string { return "vc04stub" }
 func (s *vC04Stub) ServeDNS(ctx context.Context, ch *middleware.Chain) {
 	req := ch.Request.Msg()
 	name := strings.ToLower(req.Question[0].Name)
+	if qt := req.Question[0].Qtype; qt != dns.TypeA {
+		name += "|" + dns.TypeToString[qt] // scripts for other types are keyed name|TYPE
+	}
 	s.calls = append(s.calls, name)
 	sc := s.script[name]
 	resp := new(dns.Msg)
